@@ -102,5 +102,12 @@ def replay(path):
     print("not reproduced: " + r["stats"])
     return 0
 
+def warm():
+    r = miri(1)  # builds the crate and, at first use, the Miri sysroot
+    print("m1 warm-up: " + (r["stats"] or "Miri did not run here: " + r["tail"][-300:]))
+    return 0
+
 if __name__ == "__main__":
+    if sys.argv[1] == "warm":
+        sys.exit(warm())
     sys.exit(run(sys.argv[2]) if sys.argv[1] == "run" else replay(sys.argv[2]))
